@@ -52,6 +52,7 @@ class Engine:
         self.nofeas = False
         self.class_aliases = {}
         self.ghost_types = {}
+        self.func_kinds = {}            # VFunc.kind -> impl(engine, st, fv, args, kwargs) for sidecar-defined callables
         from . import heapmodel as _h
         _h.install(self)
         from . import builtins as _b
@@ -482,22 +483,48 @@ class Engine:
         return out
 
     def compare_vals(self, op, a, b, st):
+        if isinstance(op, (ast.Eq, ast.NotEq)):
+            r = self.struct_eq(a, b, st)
+            return r if isinstance(op, ast.Eq) else z3.Not(r)
         import dataclasses as _dc
         if isinstance(a, VRef) and isinstance(b, VRef) and not isinstance(op, (ast.Is, ast.IsNot)):
             oa, ob = st.heap[a.oid], st.heap[b.oid]
             if oa.kind == "inst" and ob.kind == "inst" and oa.cls is ob.cls and isinstance(oa.cls, type) and _dc.is_dataclass(oa.cls):
                 params = getattr(oa.cls, "__dataclass_params__", None)
                 names = [f.name for f in _dc.fields(oa.cls) if f.compare]
-                if isinstance(op, (ast.Eq, ast.NotEq)) or (params is not None and params.order):
+                if params is not None and params.order:
                     self.assumptions_used.add("A-LIB(dataclasses): generated __eq__/ordering compare the field tuples")
                     return compare(op, VTuple([self.devalue(oa.f[n], st) for n in names]), VTuple([self.devalue(ob.f[n], st) for n in names]))
-        # heap lists / bufs compare structurally
         a2, b2 = self.devalue(a, st), self.devalue(b, st)
+        return compare(op, a2, b2) if not isinstance(op, (ast.Is, ast.IsNot)) else compare(op, a, b)
+
+    def struct_eq(self, a, b, st):
+        """Python == : structural for tuples/lists, dataclass instances and protobuf message records."""
+        import dataclasses as _dc
+        if isinstance(a, VUnion):
+            return simp(z3.Or(*[z3.And(g, self.struct_eq(x, b, st)) for g, x in a.alts]))
+        if isinstance(b, VUnion):
+            return simp(z3.Or(*[z3.And(g, self.struct_eq(a, x, st)) for g, x in b.alts]))
+        if isinstance(a, VRef) and isinstance(b, VRef):
+            oa, ob = st.heap[a.oid], st.heap[b.oid]
+            if oa.kind == "inst" and ob.kind == "inst" and oa.cls is ob.cls and isinstance(oa.cls, type) and _dc.is_dataclass(oa.cls):
+                names = [f.name for f in _dc.fields(oa.cls) if f.compare]
+                self.assumptions_used.add("A-LIB(dataclasses): generated __eq__/ordering compare the field tuples")
+                return simp(z3.And(*[self.struct_eq(oa.f[n], ob.f[n], st) for n in names] or [z3.BoolVal(True)]))
+            if oa.kind == "msg" and ob.kind == "msg":
+                if oa.cls is not ob.cls:
+                    return z3.BoolVal(False)
+                return simp(z3.And(*[self.struct_eq(oa.f[k], ob.f[k], st) for k in oa.f if not k.startswith("__")] or [z3.BoolVal(True)]))
+        a2, b2 = self.devalue(a, st), self.devalue(b, st)
+        if isinstance(a2, VTuple) and isinstance(b2, VTuple):
+            if len(a2.items) != len(b2.items):
+                return z3.BoolVal(False)
+            return simp(z3.And(*[self.struct_eq(x, y, st) for x, y in zip(a2.items, b2.items)] or [z3.BoolVal(True)]))
         if isinstance(a2, VSeq) and isinstance(b2, VTuple):
             b2 = VSeq(self.builtin_mod.encode_elem(self, st, b2, Ty("seq", [a2.elem])), a2.elem)
         elif isinstance(b2, VSeq) and isinstance(a2, VTuple):
             a2 = VSeq(self.builtin_mod.encode_elem(self, st, a2, Ty("seq", [b2.elem])), b2.elem)
-        return compare(op, a2, b2) if not isinstance(op, (ast.Is, ast.IsNot)) else compare(op, a, b)
+        return values_equal(a2, b2)
 
     def devalue(self, v, st):
         """For ==: replace references to list/bytearray objects by immutable value views."""
@@ -662,6 +689,9 @@ class Engine:
                 return self.call_py(fv, args, kwargs, st)
             if k == "opaque":
                 return self.builtin_mod.call_opaque(self, st, fv, args, kwargs)
+            fk = self.func_kinds.get(k)
+            if fk is not None:
+                return fk(self, st, fv, args, kwargs)
         if isinstance(fv, VClass):
             return self.builtin_mod.construct(self, st, fv, args, kwargs)
         if isinstance(fv, VObj):
